@@ -2,6 +2,7 @@ package frugal
 
 import (
 	"sync"
+	"time"
 
 	"github.com/apache/thrift/lib/go/thrift"
 	"github.com/nats-io/nats.go"
@@ -14,6 +15,7 @@ func init() {
 }
 
 type verifCountProcessor struct {
+	slow      bool
 	mu        sync.Mutex
 	processed map[byte]int
 }
@@ -27,6 +29,9 @@ func (p *verifCountProcessor) Process(in, out *FProtocol) error {
 	p.processed[b[0]]++
 	p.mu.Unlock()
 	verifYield("handler-running") // the handler takes an arbitrary time
+	if p.slow {
+		verifAdvanceClock(10 * time.Second)
+	}
 	_, err := out.Transport().Write([]byte{b[0]})
 	return err
 }
@@ -47,7 +52,7 @@ func VerifC20_ShutdownDrains() {
 	b := newVerifBroker()
 	cfg := verifParam()
 	workers, queue := uint(1+cfg/3), uint(cfg%3)
-	proc := &verifCountProcessor{processed: map[byte]int{}}
+	proc := &verifCountProcessor{processed: map[byte]int{}, slow: verifChoice(2) == 1}
 	srv := NewFNatsServerBuilder(&nats.Conn{}, proc, NewFProtocolFactory(thrift.NewTBinaryProtocolFactoryDefault()), []string{"svc"}).
 		WithWorkerCount(workers).WithQueueLength(queue).Build()
 	served := make(chan error, 1)
